@@ -218,13 +218,20 @@ type focusHandler struct {
 
 	// path is the path to the focused widet
 	path []Widget
+
+	// lastFrame is the surface tree the path was last computed from
+	lastFrame Surface
 }
 
 func (f *focusHandler) handleEvent(app *App, ev vaxis.Event) error {
 	app.consumeEvent = false
 
+	// The event travels along the path as it is now, also when a handler
+	// changes the focus on the way
+	path := f.path
+
 	// Capture phase
-	for _, w := range f.path {
+	for _, w := range path {
 		c, ok := w.(EventCapturer)
 		if !ok {
 			continue
@@ -253,8 +260,8 @@ func (f *focusHandler) handleEvent(app *App, ev vaxis.Event) error {
 
 	// Bubble phase. We don't bubble to the focused widget (which is the
 	// last one in the list). Hence, - 2
-	for i := len(f.path) - 2; i >= 0; i -= 1 {
-		w := f.path[i]
+	for i := len(path) - 2; i >= 0; i -= 1 {
+		w := path[i]
 		cmd, err := w.HandleEvent(ev, BubblePhase)
 		if err != nil {
 			return err
@@ -270,14 +277,21 @@ func (f *focusHandler) handleEvent(app *App, ev vaxis.Event) error {
 }
 
 func (f *focusHandler) updatePath(app *App, root Surface) {
-	// Clear the path
-	f.path = []Widget{}
-
-	ok := f.childHasFocus(root)
+	f.lastFrame = root
+	ok := f.buildPath(root)
 	if !ok {
 		// Best effort refocus
 		_ = f.focusWidget(app, f.root)
 	}
+}
+
+// buildPath computes the path from the root to the focused widget in the
+// surface tree root. It returns false if the focused widget is not in the tree
+func (f *focusHandler) buildPath(root Surface) bool {
+	// Clear the path
+	f.path = []Widget{}
+
+	ok := f.childHasFocus(root)
 
 	if f.root != root.Widget || len(f.path) == 0 {
 		// Make sure that we always add the original root widget as the
@@ -291,6 +305,7 @@ func (f *focusHandler) updatePath(app *App, root Surface) {
 	for i := 0; i < len(f.path)/2; i++ {
 		f.path[i], f.path[len(f.path)-1-i] = f.path[len(f.path)-1-i], f.path[i]
 	}
+	return ok
 }
 
 func (f *focusHandler) childHasFocus(s Surface) bool {
@@ -326,6 +341,10 @@ func (f *focusHandler) focusWidget(app *App, w Widget) error {
 	// newly focused widget changes focus again, we need to set this before
 	// the handleCommand call
 	f.focused = w
+	// The path led to the previously focused widget. Events which arrive
+	// before the next frame is drawn must be captured by and bubble to
+	// the ancestors of the new one
+	f.buildPath(f.lastFrame)
 	cmd, err = w.HandleEvent(vaxis.FocusIn{}, TargetPhase)
 	if err != nil {
 		return err
@@ -393,6 +412,7 @@ func (a *App) Run(w Widget) error {
 	mh := mouseHandler{
 		lastFrame: s,
 	}
+	a.fh.updatePath(a, s)
 
 	// This is the main event loop. We first wait for events with an 8ms
 	// timeout. If we have an event, we handle it immediately and process
